@@ -18,8 +18,38 @@ import traceback
 import warnings
 
 
+def install_fault(fault):
+    """a worker failure for the mapping stage (C19 histories): the worker
+    whose chunk starts at row fault['r0'] raises / exits / is killed before
+    (or after) doing its work.  The patch is inherited by the forked
+    workers."""
+    import signal
+    from cell_type_mapper.type_assignment import election
+    orig = election._run_type_assignment_on_h5ad_worker
+
+    def wrapper(*args, **kwargs):
+        hit = kwargs.get('r0') == fault.get('r0', 0)
+        if hit and fault.get('point', 'before') == 'before':
+            fire(fault)
+        orig(*args, **kwargs)
+        if hit:
+            fire(fault)
+
+    def fire(fault):
+        mode = fault.get('mode', 'raise')
+        if mode == 'raise':
+            raise RuntimeError('injected worker failure')
+        if mode == 'exit':
+            os._exit(3)
+        os.kill(os.getpid(), signal.SIGKILL)
+
+    election._run_type_assignment_on_h5ad_worker = wrapper
+
+
 def run_stage(job):
     stage = job['stage']
+    if job.get('fault'):
+        install_fault(job['fault'])
     if stage == 'precompute':
         from cell_type_mapper.diff_exp.precompute_from_anndata import (
             precompute_summary_stats_from_h5ad)
